@@ -80,6 +80,21 @@ def parseTarget : String → Option Target
   | "f" => some .notDir
   | _ => none
 
+/-- Target shapes of the op `unzipat`: the first letter says how the directory argument reaches what it denotes
+    (d plain path, t trailing slash, l/a/c symbolic link as final element - relative, absolute, chain -, s link
+    followed by a slash, p below a symlinked parent), the second letter is the state of what it denotes (a third
+    letter, what a non-empty directory holds, does not matter to the model). `none` for the shapes the model has
+    no state for: a dangling link and `file/`. -/
+def parseShape (s : String) : Option Target :=
+  match s.toList with
+  | via :: st :: _ =>
+    if st == 'e' then some .emptyDir
+    else if st == 'n' then some .nonEmptyDir
+    else if st == 'm' && (via == 'd' || via == 't' || via == 'p') then some .missing
+    else if st == 'f' && (via == 'd' || via == 'l' || via == 'a' || via == 'c' || via == 'p') then some .notDir
+    else none
+  | _ => none
+
 def reasonStr : Reason → String
   | .notClean => "notclean" | .notRelative => "notrelative" | .vendored => "vendored"
   | .submoduleFile => "submodulefile" | .hgArchival => "hgarchival" | .filePath => "filepath"
@@ -158,6 +173,9 @@ def handle : Handler
     | .ok cf => pure (showCf cf)
   | "unzip", [m, v, zs, t, es] => do
     let m ← hx m; let v ← hx v; let zs ← zs.toNat?; let t ← parseTarget t; let es ← parseEntries es
+    pure (showUnzip t (unzip realEnv tdir t m v zs es))
+  | "unzipat", [m, v, zs, sh, es] => do
+    let m ← hx m; let v ← hx v; let zs ← zs.toNat?; let t ← parseShape sh; let es ← parseEntries es
     pure (showUnzip t (unzip realEnv tdir t m v zs es))
   | _, _ => none
 
